@@ -377,6 +377,17 @@ func (w *writerA) deflateTail(rule string) {
 					continue
 				}
 				n++
+				// a package-level constant array stands for its content
+				if sb := strip(b); sb.Kind == core.KLoad && sb.Args[0].Kind == core.KGlobal {
+					if vals, isArr := c.globalByteArray(sb.Args[0].Ref.(*ssa.Global)); isArr && len(vals) == 4 {
+						for i, want := range []int64{0, 0, 0xff, 0xff} {
+							if vals[i] != want {
+								ok, why = false, "the tail the writer strips is not 00 00 ff ff (the reader re-appends 00 00 ff ff)"
+							}
+						}
+						continue
+					}
+				}
 				if b.Kind != core.KSliceLit || len(b.Args) != 4 {
 					ok, why = false, "the withheld bytes are compared with something other than a 4-byte literal"
 					continue
